@@ -325,6 +325,24 @@ class VariantMonitor(Monitor):
     def on_decision(self, ctx, s, avail):
         if s.actor_index is None:
             return
+        # button games: who opens each round is part of what the variant
+        # documents (left of the biggest blind or straddle before the flop
+        # -- posts of returning players do not move it --, left of the
+        # button afterwards); compared with the opener model of C13
+        seen = ctx.data.setdefault('c11_rounds', set())
+        if s.street_index not in seen:
+            seen.add(s.street_index)
+            if 'POSITION' in str(s.street.opening).upper():
+                from vflib.ref import opener as _opener
+                exp_first = _opener.first_actor(s)
+                ctx.counters['round_openers_compared'] += 1
+                if exp_first is not None and exp_first != s.actor_index:
+                    ctx.violate(
+                        f'{ctx.cfg["game"]}: the round on street '
+                        f'{s.street_index} is opened by player '
+                        f'{s.actor_index}, the opener model says '
+                        f'{exp_first} (bets {s.bets}, stacks {s.stacks}, '
+                        f'blinds {s.blinds_or_straddles})')
         # board cards per street as the table says (read from the state:
         # each board holds what the streets dealt so far prescribe)
         k = s.street_index
